@@ -241,6 +241,114 @@ func timers(kind string) {
 	}
 }
 
+// maprace: a map shared by goroutines with no synchronisation between their accesses (the
+// Go runtime ends such a process with "concurrent map writes" when the accesses really
+// overlap). mapsafe: the same sharing ordered by a mutex (deferred unlock), a channel hand-over,
+// a WaitGroup, a semaphore channel and a Once — nothing may be reported.
+func maprace(kind string) {
+	m := map[int]int{}
+	done := make(chan bool)
+	switch kind {
+	case "writers":
+		for g := 0; g < 2; g++ {
+			go func() {
+				for i := 0; i < 600; i++ {
+					m[i%5] += work(300)
+				}
+				done <- true
+			}()
+		}
+		<-done
+		<-done
+	default: // a budgeted helper that is abandoned when its time is up, as a watchdog copy would
+		go func() {
+			for i := 0; i < 4000; i++ {
+				m[i%7] = work(40)
+			}
+			done <- true
+		}()
+		select {
+		case <-done:
+		case <-time.After(200 * time.Microsecond):
+		}
+		for i := 0; i < 50; i++ {
+			m[i%7]++
+			work(100)
+		}
+	}
+	fmt.Println("maprace", kind, len(m))
+}
+
+func mapsafe() {
+	m := map[int]int{}
+	var mu sync.Mutex
+	var wg sync.WaitGroup
+	put := func(k, v int) {
+		mu.Lock()
+		defer mu.Unlock()
+		m[k] += v
+	}
+	for g := 0; g < 3; g++ {
+		wg.Add(1)
+		go func() {
+			defer wg.Done()
+			for i := 0; i < 20; i++ {
+				put(i%4, work(500))
+			}
+		}()
+	}
+	wg.Wait()
+	total := len(m) // after Wait: ordered by Done -> Wait
+	// hand-over through a channel
+	own := map[string]int{}
+	ch := make(chan map[string]int)
+	go func() {
+		own["a"] = work(2000)
+		ch <- own
+	}()
+	got := <-ch
+	got["b"] = 1
+	// a channel used as a semaphore: the receive is what releases
+	sem := make(chan struct{}, 1)
+	shared := map[int]int{}
+	var wg2 sync.WaitGroup
+	for g := 0; g < 3; g++ {
+		wg2.Add(1)
+		go func() {
+			defer wg2.Done()
+			for i := 0; i < 10; i++ {
+				sem <- struct{}{}
+				shared[i] += work(700)
+				<-sem
+			}
+		}()
+	}
+	wg2.Wait()
+	// a Once that builds a table others read
+	var once sync.Once
+	table := map[int]int{}
+	var wg3 sync.WaitGroup
+	sum := 0
+	var smu sync.Mutex
+	for g := 0; g < 3; g++ {
+		wg3.Add(1)
+		go func() {
+			defer wg3.Done()
+			once.Do(func() {
+				for i := 0; i < 30; i++ {
+					table[i] = work(300)
+				}
+			})
+			v := table[g]
+			smu.Lock()
+			sum += v
+			smu.Unlock()
+		}()
+	}
+	wg3.Wait()
+	fmt.Println("mapsafe", total, len(got), len(shared), len(table), sum > 0)
+}
+
 func main() {
 	mode := "all"
 	if len(os.Args) > 1 {
@@ -261,6 +369,10 @@ func main() {
 		once(5)
 	case "env":
 		env()
+	case "maprace-writers", "maprace-abandoned":
+		maprace(mode[8:])
+	case "mapsafe":
+		mapsafe()
 	case "timers-context", "timers-newtimer", "timers-ticker":
 		timers(mode[7:])
 	case "deadlock-timer":
